@@ -236,12 +236,9 @@ abbrev Bals := AMap.T Wid Nat
 
 -- ------------------------------------------------------------------ unmined side (utxostore.go)
 
-/-- insertUnminedInputs: only the relevant inputs -/
+/-- insertUnminedInputs: every input of the tx, relevant or not (as Rollback does) -/
 def insertUnminedInputs (s : Store) (tr : TxRec) : Store :=
-  tr.relIn.foldl (fun s rel =>
-    match tr.tx.ins[rel.index]? with
-    | some i => { s with pendIns := putPendIn s.pendIns (i.tx, i.idx) tr.tx.id }
-    | none => s) s
+  tr.tx.ins.foldl (fun s i => { s with pendIns := putPendIn s.pendIns (i.tx, i.idx) tr.tx.id }) s
 
 /-- deleteUnminedInputs: every input of the tx -/
 def deleteUnminedInputs (s : Store) (tx : Tx) : Store :=
@@ -307,17 +304,15 @@ def purgeSpenders (own : Own) (s : Store) (op : TxId × Nat) : Store :=
     | some dtx => removeConflict own (s.pending.length + 1) s dtx
     | none => s) s
 
-/-- removeDoubleSpends: pending transactions spending an input of the mined tx are conflicts -/
+/-- removeDoubleSpends: pending transactions spending an input of the mined tx — any input, wallet
+    coin or not — are conflicts -/
 def removeDoubleSpends (own : Own) (s : Store) (tr : TxRec) : Store :=
   let fuel := s.pending.length + 1
-  let s := tr.relIn.foldl (fun s rel =>
-    match tr.tx.ins[rel.index]? with
-    | some i =>
-      ((AMap.get s.pendIns (i.tx, i.idx)).getD []).foldl (fun s ds =>
-        match AMap.get s.pending ds with
-        | some dtx => removeConflict own fuel s dtx
-        | none => s) s
-    | none => s) s
+  let s := tr.tx.ins.foldl (fun s i =>
+    ((AMap.get s.pendIns (i.tx, i.idx)).getD []).foldl (fun s ds =>
+      match AMap.get s.pending ds with
+      | some dtx => removeConflict own fuel s dtx
+      | none => s) s) s
   deleteUnminedInputs s tr.tx
 
 /-- insertMemPoolTx + AddCredits(block = nil) -/
@@ -522,6 +517,15 @@ def applyRelevant (c : Ctx) (s : Store) (ready : List Wid) (bm : BlockMeta) (rel
     let (s, bals) ← relevant.foldlM (fun sb tr => addRelevantMined c.p c.own sb.1 sb.2 tr bm) (s, bals)
     pure { s with balance := mergeBalances bals s.balance }
 
+/-- filterBlock: the non-coinbase transactions of the block that filterTx found irrelevant -/
+def unrelatedTxs (txs : List Tx) (relevant : List TxRec) : List Tx :=
+  txs.filter (fun t => !t.cb && !relevant.any (fun tr => tr.tx.id = t.id))
+
+/-- filterBlock → TxStore.RemoveUnminedConflicts: an irrelevant transaction of the block may still
+    double-spend a pending one (removeDoubleSpends on a record without relevance lists) -/
+def purgeUnrelated (own : Own) (s : Store) (txs : List Tx) : Store :=
+  txs.foldl (fun s t => removeDoubleSpends own s { tx := t }) s
+
 /-- filterBlock + onRelevantBlockConnected + SetSyncedTo; returns the confirmed relevant tx ids -/
 def filterBlock (c : Ctx) (s : Store) (ready : List Wid) (b : Block) : M (Store × List TxId) :=
   let bm : BlockMeta := ⟨b.height, b.id⟩
@@ -532,6 +536,7 @@ def filterBlock (c : Ctx) (s : Store) (ready : List Wid) (b : Block) : M (Store 
     else do
       let relevant ← if ready.isEmpty then pure [] else filterTxs c s ready b.id b.txs [] 0 []
       let s ← applyRelevant c s ready bm relevant
+      let s := purgeUnrelated c.own s (if ready.isEmpty then [] else unrelatedTxs b.txs relevant)
       let s2 ← putSyncedTo s bm
       pure (s2, relevant.map (·.tx.id))
 
